@@ -70,8 +70,15 @@ def make_post_selection(lw, rng, k):
             used.update(modes)
             rules.append((modes, nums))
         return ps, "rules", (lambda s, rules=tuple(rules): all(sum(s[m] for m in ms) in ns for ms, ns in rules))
-    which = int(rng.integers(3))
+    which = int(rng.integers(6))
     m = int(rng.integers(k))
+    # (3-5: predicates written against the documented argument type, a State: its attributes and State-valued slices)
+    if which == 3:
+        return (lambda s: s[: m + 1].n_photons >= 1), "predicate_state_api", (lambda s: sum(s[: m + 1]) >= 1)
+    if which == 4:
+        return (lambda s: s.s[m] <= 1), "predicate_state_api", (lambda s: s[m] <= 1)
+    if which == 5:
+        return (lambda s: s.n_modes == k and s[m] <= 1), "predicate_state_api", (lambda s: s[m] <= 1)
     if which == 0:
         return (lambda s: s[m] <= 1), "predicate", (lambda s: s[m] <= 1)
     if which == 1:
@@ -85,6 +92,15 @@ def make_circuit(lw, rng):
     if b.loss_p == 0:
         b.allow = b.allow - {"loss"}
     r = rng.random()
+    if rng.random() < 0.03:
+        # every mode heralded: the empty state is the only visible input and output
+        n = int(rng.integers(1, 4))
+        c = b.leaf(n, int(rng.integers(1, 5)), log)
+        outs = [int(x) for x in (rng.permutation(n) if rng.random() < 0.4 else np.arange(n))]
+        for m in rng.permutation(n):
+            c.herald(int(rng.integers(0, 2)), int(m), outs[int(m)])
+            log.append(["herald", "all modes", int(m), outs[int(m)]])
+        return c, log
     if r < 0.2:
         g = str(rng.choice(["CNOT_Heralded", "CZ_Heralded", "CNOT", "CZ"]))
         c = lw.Circuit(4); log.append(["circuit", 4])
@@ -123,13 +139,20 @@ def run(ctx):
         u = c.U_full
         n_loss = u.shape[0] - c.n_modes
         lossy = n_loss > 0
-        if n_loss > 4 or k == 0 or too_big(c):
+        if n_loss > 4 or too_big(c):
             ctx.count("skipped_size")
             continue
         ne = sorted(h["input"]) != sorted(h["output"])
         nph = int(rng.integers(1, 4))
         if nph + hph > 5:
             nph = max(1, 5 - hph)
+        if k == 0 or rng.random() < 0.06:
+            nph = 0                      # nothing injected on the visible modes (the heralds may still carry photons)
+            ctx.bucket("vacuum_visible_input")
+            if hph:
+                ctx.bucket("vacuum_visible_input_with_herald_photons")
+        if k == 0:
+            ctx.bucket("every_mode_heralded")
         n_inputs = int(rng.integers(1, 4))
         inputs = []
         for _ in range(n_inputs):
@@ -143,7 +166,8 @@ def run(ctx):
         if hph: ctx.bucket("herald_with_photon")
         if ne: ctx.bucket("herald_in_ne_out")
         if lossy: ctx.bucket("lossy")
-        if ps_kind == "predicate": ctx.bucket("predicate_post_selection")
+        if ps_kind.startswith("predicate"): ctx.bucket("predicate_post_selection")
+        if ps_kind == "predicate_state_api": ctx.bucket("predicate_uses_state_api")
         if ps_kind == "rules": ctx.bucket("rule_post_selection")
 
         # --- ask the four objects (results are what the relation checker consumes)
